@@ -5,6 +5,7 @@ import PartituraModel.Model.NoteArrayBack
 import PartituraModel.Model.NoteArrayTs
 import PartituraModel.Model.NoteArrayF64
 import PartituraModel.Model.NoteArrayTsF
+import PartituraModel.Model.NoteArrayTie
 
 open Wire NoteArray
 
@@ -196,6 +197,11 @@ def handle (ts : List String) : String :=
       | "func" => fmtRes o (.ofOption o.divs (rowsC p.1 p.2 o))
       | "ensure" => fmtRes o (ensureNoteArray false o (.part p.1 p.2))
       | _ => "bad-request"
+  | "tied" :: rest =>
+    -- GenericNote.duration_tied / end_tied.t of every timed object (chains with gaps: sum vs span)
+    match run parsePart rest with
+    | none => "bad-request"
+    | some p => fmtList (fun x => fmtTuple [encS x.1, fmtOpt fmtInt x.2.1, fmtOpt fmtInt x.2.2]) (tiedTable p.2)
   | "partf" :: rest =>
     -- the float columns as numpy stores them, bit for bit (binary64 evaluation of the maps, binary32 store)
     match run (do let o ← parseOpts; let p ← parsePart; pure (o, p)) rest with
